@@ -272,6 +272,11 @@ pub fn bytes_no_panic(data: &[u8]) -> Result<(), String> {
     }
 }
 
+/// Rendered valid documents (seed corpus of the libFuzzer target).
+pub fn corpus_strategy() -> BoxedStrategy<String> {
+    (param_strategy(true), syntax_strategy()).prop_map(|(p, s)| render(&p, &s).0).boxed()
+}
+
 impl Property for C19 {
     type Case = Case;
     fn id(&self) -> &'static str {
